@@ -4,14 +4,23 @@ import common as C
 import gen as G
 import docgen as D
 
-MODEL_TARGETS = ["model/Parse.vo", "model/SchemaJson.vo", "model/CanonicalForm.vo", "model/Freeze.vo"]
+MODEL_TARGETS = ["model/Parse.vo", "model/JsonRead.vo", "proofs/JsonReadSchema.vo", "model/SchemaJson.vo", "model/CanonicalForm.vo", "model/Freeze.vo"]
 COQ_TARGETS = ["props/C19.vo"]
 THEOREMS = [("C19", ["C19_parse_total", "C19_fp_total", "C19_json_total", "C19_freeze_total", "C19_freeze_keys", "C19_use_safe", "C19_cyclecheck_linear", "C19_json_text_total", "C19_parse_text_total"])]
 PROOF_FILES = ["proofs/SchemaTextProofs.v", "proofs/SchemaTotalProofs.v", "proofs/JsonReadProofs.v", "proofs/JsonReadSchema.v", "proofs/JsonReadTotal.v", "props/C19.v", "proofs/SerSafetyProofs.v", "proofs/DeSafetyProofs.v"]
 TRUSTED_BASE = [
     "Coq 8.16.1 kernel; no axioms (Print Assumptions: closed)",
     "hand-written models Parse.v (raw.rs + parsing/mod.rs + check_for_cycles.rs), CanonicalForm.v, SchemaJson.v (serialize.rs), Freeze.v/Schema.v (self_referential.rs) tied by the correspondence run",
-    "serde_json (lexing, recursion limit 128) is outside the model: the model starts at the JSON AST; Python's json module is used to obtain the AST for the model side",
+    "hand-written model/JsonRead.v of serde_json's reader (de.rs / read.rs: grammar, escapes, surrogate pairs, control characters, UTF-8 check of string contents, recursion limit 128, "
+    "trailing characters), total by proof (C19_json_text_total, C19_parse_text_total) and tied to serde_json by the run: every text goes to crate and model AS TEXT, through the reader alone "
+    "(harness `jsonread` = serde_transcode from serde_json's Deserializer to its compact Serializer + end, as SchemaMut::from_str copies the document; model `jsonread` = json_of_text: accept / reject and "
+    "the document read) and through SchemaMut::from_str vs JsonReadSchema.parse_schema_text (outcome, node vector, canonical form, fingerprint, reported JSON); Python's json module is a third "
+    "reader whose disagreement with the model is a model difference -- it no longer produces the model's input",
+    "two modelling gaps, classified `unmodelled` and counted in the distribution, nothing else is: (1) serde_json rejects a number token whose value overflows f64 (1e999, 400-digit integers), the model "
+    "keeps the token (only when the text holds such a token outside strings: jsontext.out_of_range); (2) the crate accepts the `type` attribute written as a one-entry object with a null value "
+    "({\"type\":{\"int\":null}}: serde's externally tagged spelling of the derived enum raw::Type), Parse.v only the string (jsontext.type_as_tagged_enum); bytes that are not UTF-8 are not a &str -- "
+    "no call of from_str exists for them (harness: not-str) -- the model must reject them, and serde_json's from_slice is compared with the model's reader on them; "
+    "texts too long for the extracted reader's stack (a 300 KB string literal) are skipped and counted; docgen.serde_num (Python) re-prints number tokens for the comparison of reported JSON",
     "fuel is the model's stand-in for stack depth and running time: the theorems give an explicit bound (quadratic in the number of nodes) sufficient for ANY node vector; real stack usage per frame is not modelled -- each call on the crate runs in a child process whose death or timeout is a result",
     "extraction (ExtrOcamlBasic) + ocaml/driver.ml; Rust harness",
 ]
@@ -20,36 +29,11 @@ ASSUMPTIONS = [
 ]
 
 def text_to_ast(text):
-    """Python's json with order, duplicates and number tokens preserved; None when Python and serde_json may disagree on validity"""
-    def pairs(p):
-        return ("obj", list(p))
-    def bad(_):
-        raise ValueError("constant")
-    try:
-        v = pyjson.loads(text, object_pairs_hook=pairs, parse_int=lambda t: ("num", t), parse_float=lambda t: ("num", t), parse_constant=bad)
-    except (ValueError, RecursionError):
-        return None
-    def conv(x, depth=0):
-        if depth > 120:
-            raise ValueError("deep")
-        if x is None:
-            return ("null",)
-        if x is True or x is False:
-            return ("bool", x)
-        if isinstance(x, tuple) and x and x[0] == "num":
-            return x
-        if isinstance(x, tuple) and x and x[0] == "obj":
-            return ("obj", [(k, conv(v, depth + 1)) for k, v in x[1]])
-        if isinstance(x, str):
-            x.encode("utf-8")           # lone surrogates: serde_json rejects them
-            return ("str", x)
-        if isinstance(x, list):
-            return ("arr", [conv(v, depth + 1) for v in x])
-        raise ValueError("type")
-    try:
-        return conv(v)
-    except (ValueError, UnicodeEncodeError):
-        return None
+    """Python's json with order, duplicates and number tokens preserved (jsontext.py_read); None when Python rejects the text or its
+    nesting is past what Python is asked about. A THIRD reading: the model reads the text itself (JsonRead.json_of_text)"""
+    import jsontext
+    verdict, x = jsontext.py_read(text)
+    return x if verdict == "ok" else None
 
 def random_json(rng, depth=0):
     r = rng.random()
@@ -130,6 +114,11 @@ def run(ctx):
                 continue
             sch = line[len("freeze "):]
             # whenever freezing succeeds the schema can be used safely: hostile bytes and arbitrary presentations
+            # (not with a fixed of gigabytes: writing / reading that many bytes is what the schema asks for, and only takes time)
+            import re as _re
+            if any(int(m) > (1 << 20) for m in _re.findall(r"\(fixed x[0-9a-f]* ([0-9]+)\)", sch)):
+                dist["use/skipped-huge-fixed"] += 1
+                continue
             for _ in range(2):
                 b = bytes(rng.choice([0, 1, 2, 3, 0x80, 0xFF, 0x7F, rng.randrange(256)]) for _ in range(rng.randint(0, 24)))
                 use_lines.append("de %s %s %s %s (cfg %d %d 4096)" % (sch, rng.choice(["any", "ignored"]), C.hx(b),
@@ -199,40 +188,98 @@ def run(ctx):
                 inv = p_C07.invalidate(rng, D.DocGen(rng, nodes).gen(0, None))
             doc = inv[1]
         texts.append(D.to_text(doc, rng))
+    # ---- the reader's own family (jsontext.reader_cases): escapes, surrogates, control characters, ill-formed UTF-8, number shapes,
+    # whitespace and non-whitespace, commas / garbage / truncation, nesting around the limit, duplicate and empty keys, NUL
+    import jsontext as JT
+    labelled = [("schema-texts", t.encode("utf-8")) for t in texts] + JT.reader_cases(rng, quick)
+    labels = [l for l, _ in labelled]
+    texts = [t for _, t in labelled]
     tlines = ["parse " + C.hx(t) for t in texts]
+    mlines = ["parse (text %s)" % C.hx(t) for t in texts]          # the SAME text, read by the model's own reader
+    jlines = ["jsonread " + C.hx(t) for t in texts]
     ti = C.run_parallel(C.AVRODRIVE, tlines, timeout=240)
-    mlines, midx = [], []
-    for i, t in enumerate(texts):
-        ast = text_to_ast(t) if len(t) < 20000 else None
-        if ast is not None:
-            mlines.append("parse " + D.to_sx(ast))
-            midx.append(i)
     tm = C.run_parallel(C.AVROMODEL, mlines, timeout=240)
-    for line, ri, t in zip(tlines, ti, texts):
+    ji = C.run_parallel(C.AVRODRIVE, jlines, timeout=240)            # serde_json alone (transcode to the compact printer + end)
+    jm = C.run_parallel(C.AVROMODEL, jlines, timeout=240)            # JsonRead.json_of_text alone
+    def kind(r):
+        return r.split(" ")[0].strip("()")
+    for i, (lab, t, line, mline, ri, rm, rji, rjm) in enumerate(zip(labels, texts, tlines, mlines, ti, tm, ji, jm)):
         distinct.add(line)
-        k = ri.split(" ")[0].strip("()")
+        fam = lab.split("/")[0]
+        k, km, kj, kjm = kind(ri), kind(rm), kind(rji), kind(rjm)
         dist["text/" + k] += 1
-        if k not in ("ok", "err", "freeze-err"):
-            violations.append({"impl_case": line[:3000], "what": "parsing a text did not return Ok or Err: %s" % ri[:120], "text": t[:200]})
-        if len(samples) < 6 and k == "err":
-            samples.append({"text": t[:160], "outcome": k})
-    for i, rm in zip(midx, tm):
-        ri = ti[i]
-        ki, km = ri.split(" ")[0].strip("()"), rm.split(" ")[0].strip("()")
-        if km == "unmodelled" or ki not in ("ok", "err", "freeze-err"):
+        dist["reader/%s/%s" % (fam, k)] += 1
+        shown = t[:200].decode("utf-8", "replace")
+        if k not in ("ok", "err", "freeze-err", "not-str"):
+            violations.append({"impl_case": line[:3000], "what": "parsing a text did not return Ok or Err: %s" % ri[:120], "text": shown})
             continue
-        if (ki == "ok") != (km == "ok"):
-            diffs.append({"impl_case": tlines[i][:3000], "model_case": mlines[midx.index(i)][:3000], "impl": ri[:300], "model": rm[:300]})
-        elif ki == "ok":
+        if kj not in ("ok", "err"):
+            violations.append({"impl_case": jlines[i][:3000], "what": "reading a text as JSON (serde_json, as SchemaMut::from_str copies the document) did not return Ok or Err: %s" % rji[:120], "text": shown})
+            continue
+        if len(samples) < 6 and k == "err" and fam == "schema-texts":
+            samples.append({"text": shown[:160], "outcome": k})
+        if "stack-overflow" in (km, kjm):
+            dist["reader/model-skipped (text too long for the extracted reader's stack)"] += 1
+            continue
+        oor = None
+        # (a) the reader alone: accept / reject, and the document read (compact print, number tokens in serde_json's spelling)
+        if kjm not in ("ok", "err"):
+            diffs.append({"impl_case": jlines[i][:3000], "model_case": jlines[i][:3000], "impl": rji[:300], "model": rjm[:300], "what": "the model's reader did not answer Ok or Err"})
+        elif (kj == "ok") != (kjm == "ok"):
+            oor = JT.out_of_range(t)
+            if kj == "err" and oor:
+                dist["reader/unmodelled (a number token out of f64 range: serde_json rejects, the model keeps the token)"] += 1
+            else:
+                diffs.append({"impl_case": jlines[i][:3000], "model_case": jlines[i][:3000], "impl": rji[:300], "model": rjm[:300],
+                              "what": "JSON reader: serde_json and JsonRead.json_of_text disagree on accepting this text"})
+        elif kj == "ok":
+            got = C.parse_sx(rji)[0][1]
+            want = JT.norm_hex(C.parse_sx(rjm)[0][2])
+            if got != want:
+                diffs.append({"impl_case": jlines[i][:3000], "model_case": jlines[i][:3000], "impl": rji[:300], "model": rjm[:300],
+                              "what": "JSON reader: the document serde_json read (compact print) is not the document JsonRead.json_of_text read"})
+        # (b) the whole of SchemaMut::from_str: the crate on the text vs parse_schema_text on the same text
+        if km not in ("ok", "err"):
+            diffs.append({"impl_case": line[:3000], "model_case": mline[:3000], "impl": ri[:300], "model": rm[:300], "what": "the model did not answer Ok or Err"})
+        elif k == "not-str":
+            # not UTF-8: no &str holds these bytes; the model must not accept them either
+            if km == "ok":
+                diffs.append({"impl_case": line[:3000], "model_case": mline[:3000], "impl": ri[:300], "model": rm[:300], "what": "the model accepts a text that is not UTF-8"})
+        elif (k == "ok") != (km == "ok"):
+            if oor is None:
+                oor = JT.out_of_range(t)
+            if km == "ok" and oor:
+                dist["text/unmodelled (a number token out of f64 range)"] += 1
+            elif k == "ok" and kjm == "ok" and JT.type_as_tagged_enum(C.parse_sx(rjm)[0][1]):
+                # {"type":{"int":null}}: serde's externally tagged spelling of the derived enum raw::Type, accepted by the crate
+                # (a one-entry object whose value is null); Parse.v only has the string spelling
+                dist["text/unmodelled (type attribute written as a one-entry object {\"int\":null})"] += 1
+            else:
+                diffs.append({"impl_case": line[:3000], "model_case": mline[:3000], "impl": ri[:300], "model": rm[:300]})
+        elif k == "ok":
             pi, pm = C.parse_sx(ri)[0], C.parse_sx(rm)[0]
-            if C.show_sx(pi[1]) != C.show_sx(pm[1]) or pi[2] != pm[2] or pi[3] != pm[3]:
-                diffs.append({"impl_case": tlines[i][:3000], "model_case": mlines[midx.index(i)][:3000], "impl": ri[:300], "model": rm[:300]})
-    return {"evaluations": len(glines) + len(use_lines) + len(tlines), "distinct_nontrivial": len(distinct),
+            if C.show_sx(pi[1]) != C.show_sx(pm[1]) or pi[2] != pm[2] or pi[3] != pm[3] or pi[4] != JT.norm_hex(pm[4]):
+                diffs.append({"impl_case": line[:3000], "model_case": mline[:3000], "impl": ri[:300], "model": rm[:300]})
+    # (c) Python's json module as a third reader of every text (accept / reject and the AST), against the model's reader
+    pdiffs, pstats = JT.py_cross_check(texts, jm, "C19 texts")
+    diffs.extend(pdiffs)
+    for k2, v2 in pstats.items():
+        dist["reader/cross-check/" + k2] += v2
+    return {"evaluations": len(glines) + len(use_lines) + 2 * len(tlines), "distinct_nontrivial": len(distinct),
             "rule": "node vectors over the public node types with arbitrary keys (dangling, self-referencing, shared; keys at the boundary len-1 / len / len+1 "
                     "held by nodes the root does not reach: freeze Ok => every key in range, C19_freeze_keys), empty vectors, duplicate "
                     "and degenerate names, logical annotations anywhere: freeze, fingerprint and JSON rendering (serde_json::to_string(&SchemaMut), writer limited to 4 MiB) must return Ok/Err (each run in a process whose "
                     "death or timeout is a result); every frozen schema is then used on hostile bytes (small limits) and arbitrary presentations; "
                     "texts: random JSON of schema-like shape, valid documents damaged at the text level, nesting 1..5000 (127/128/129 around "
                     "serde_json's limit), the nested-shared-record family up to depth 60 (cycle check cost), records containing themselves (unconditionally = error, or only through "
-                    "unions / arrays / maps = accepted; cycle through the outermost record or strictly below it, several records, envelopes, namespaces, definitions nested or side by side with backward / forward references); model vs crate wherever the text has an AST",
+                    "unions / arrays / maps = accepted; cycle through the outermost record or strictly below it, several records, envelopes, namespaces, definitions nested or side by side with backward / forward references); "
+                    "the JSON reader's own family (jsontext.reader_cases), each value as the whole document and as a doc / default / custom attribute value (strings also as type, name, namespace, symbol, "
+                    "field name, logical type, key, union branch; numbers also as size / precision / scale): every escape kind, \\u escapes in both hex cases, surrogate pairs, lone / reversed / "
+                    "interrupted surrogates, malformed escapes, type names spelled with escapes, every raw control character, ill-formed UTF-8 (overlong, truncated, surrogates encoded directly, "
+                    "above U+10FFFF, stray continuation bytes; in strings, keys and between tokens) and boundary code points, number shapes (leading zeros, +1, .5, 1., 1e, -, 1e999, huge exponents, "
+                    "400-digit tokens, f64 boundaries), JSON whitespace and look-alikes (\\f \\v NBSP BOM NUL U+2028 ...) at every token boundary, trailing commas / garbage / comments / wrong "
+                    "quotes, duplicate keys (also equal only after unescaping), empty keys, wrong kinds and null for every attribute, nesting 119..132 and 1000..30000 of arrays / objects / mixed / "
+                    "wide and of array / map / union / record schemas, every prefix and every one-byte deletion of four documents, byte-level damage of generated documents, token soups; "
+                    "every text to crate and model AS TEXT: reader alone (serde_json transcode vs JsonRead.json_of_text: accept/reject + document) and SchemaMut::from_str vs parse_schema_text "
+                    "(outcome, node vector, canonical form, fingerprint, JSON); Python's json as third reader",
             "samples": samples, "violations": violations, "model_diffs": diffs, "distribution": dict(dist)}
